@@ -143,50 +143,48 @@ Proof.
   - rewrite add_transition_at, IH. rewrite <- app_assoc. reflexivity.
 Qed.
 
-Lemma compile_single_at pre cur lo hi : nlen pre + 1 < 65536 ->
+Lemma compile_single_at pre cur lo hi :
   compile_single (pre ++ [mkS cur false]) (nlen pre) lo hi
   = Some (pre ++ [mkS (cur ++ [mkT lo hi (nlen pre + 1)]) false; mkS [] false], nlen pre + 1).
 Proof.
-  intro H. unfold compile_single. rewrite add_state_spec.
+  unfold compile_single. rewrite add_state_spec.
   rewrite nlen_app. cbn [nlen]. replace (nlen pre + N.succ 0) with (nlen pre + 1) by lia.
-  rewrite to_state_id_small by lia.
+  rewrite to_state_id_id.
   rewrite <- app_assoc. cbn [app]. rewrite add_transition_at. reflexivity.
 Qed.
 
 Lemma compile_loop_chain fuel : forall rest pre cur a,
-  nlen pre + 1 + N.of_nat (length rest) <= 65536 ->
   compile_loop fuel (pre ++ [mkS cur false]) (nlen pre) rest = Ok (Some a) ->
   exists es, parses rest es /\ a = pre ++ chain_from (nlen pre) cur es.
 Proof.
-  induction fuel as [|f IH]; intros rest pre cur a Hlen H; [discriminate|].
+  induction fuel as [|f IH]; intros rest pre cur a H; [discriminate|].
   destruct rest as [|ch rest1]; cbn [compile_loop] in H.
   - unfold set_end in H. rewrite upd_n_last in H. injection H as <-.
     exists []. split; [constructor|reflexivity].
-  - cbn [length] in Hlen.
-    destruct (N.eqb_spec ch 42) as [->|H42].
+  - destruct (N.eqb_spec ch 42) as [->|H42].
     { change (pre ++ [mkS cur false]) with (pre ++ mkS cur false :: []) in H.
-      rewrite add_transition_at in H. apply IH in H as (es & P & ->); [|lia].
+      rewrite add_transition_at in H. apply IH in H as (es & P & ->).
       exists (EStar :: es). split; [constructor; exact P|reflexivity]. }
     destruct (N.eqb_spec ch 63) as [->|H63].
-    { rewrite compile_single_at in H by lia.
+    { rewrite compile_single_at in H.
       change (pre ++ [mkS (cur ++ [mkT 0 255 (nlen pre + 1)]) false; mkS [] false])
         with (pre ++ [mkS (cur ++ [mkT 0 255 (nlen pre + 1)]) false] ++ [mkS [] false]) in H.
       rewrite app_assoc in H.
       replace (nlen pre + 1) with (nlen (pre ++ [mkS (cur ++ [mkT 0 255 (nlen pre + 1)]) false])) in H at 2
         by (rewrite nlen_app; cbn; lia).
-      apply IH in H as (es & P & ->); [|rewrite nlen_app; cbn [nlen]; lia].
+      apply IH in H as (es & P & ->).
       exists (ERanges [(0, 255)] :: es). split; [constructor; exact P|].
       rewrite <- app_assoc, nlen_app. cbn [app chain_from map mk_trans fst snd nlen].
       replace (nlen pre + N.succ 0) with (nlen pre + 1) by lia. reflexivity. }
     destruct (N.eqb_spec ch 92) as [->|H92].
-    { destruct rest1 as [|ch2 rest2]; [discriminate|]. cbn [length] in Hlen.
-      rewrite compile_single_at in H by lia.
+    { destruct rest1 as [|ch2 rest2]; [discriminate|].
+      rewrite compile_single_at in H.
       change (pre ++ [mkS (cur ++ [mkT ch2 ch2 (nlen pre + 1)]) false; mkS [] false])
         with (pre ++ [mkS (cur ++ [mkT ch2 ch2 (nlen pre + 1)]) false] ++ [mkS [] false]) in H.
       rewrite app_assoc in H.
       replace (nlen pre + 1) with (nlen (pre ++ [mkS (cur ++ [mkT ch2 ch2 (nlen pre + 1)]) false])) in H at 2
         by (rewrite nlen_app; cbn; lia).
-      apply IH in H as (es & P & ->); [|rewrite nlen_app; cbn [nlen]; lia].
+      apply IH in H as (es & P & ->).
       exists (ERanges [(ch2, ch2)] :: es). split; [constructor; exact P|].
       rewrite <- app_assoc, nlen_app. cbn [app chain_from map mk_trans fst snd nlen].
       replace (nlen pre + N.succ 0) with (nlen pre + 1) by lia. reflexivity. }
@@ -197,7 +195,7 @@ Proof.
       destruct (class_loop r1 chars_empty) as [[chars rest2]|] eqn:Ecl; [|discriminate].
       rewrite nlen_app in H. cbn [nlen] in H.
       replace (nlen pre + N.succ 0) with (nlen pre + 1) in H by lia.
-      rewrite to_state_id_small in H by lia.
+      rewrite to_state_id_id in H.
       unfold add_transitions in H. rewrite <- app_assoc in H. cbn [app] in H.
       rewrite add_transitions_list_at in H.
       set (rs := runs (if neg then map negb chars else chars)) in *.
@@ -206,28 +204,26 @@ Proof.
       rewrite app_assoc in H.
       replace (nlen pre + 1) with (nlen (pre ++ [mkS (cur ++ map (mk_trans (nlen pre + 1)) rs) false])) in H at 2
         by (rewrite nlen_app; cbn; lia).
-      assert (Lr : (length rest2 <= length rest1)%nat).
-      { pose proof (skip_byte_length _ _ _ _ Esk). pose proof (class_loop_length _ _ _ _ _ (le_n _) Ecl). lia. }
-      apply IH in H as (es & P & ->); [|rewrite nlen_app; cbn [nlen]; lia].
+      apply IH in H as (es & P & ->).
       exists (ERanges rs :: es). split; [econstructor; eassumption|].
       rewrite <- app_assoc, nlen_app. cbn [app chain_from nlen].
       replace (nlen pre + N.succ 0) with (nlen pre + 1) by lia. reflexivity. }
-    rewrite compile_single_at in H by lia.
+    rewrite compile_single_at in H.
     change (pre ++ [mkS (cur ++ [mkT ch ch (nlen pre + 1)]) false; mkS [] false])
       with (pre ++ [mkS (cur ++ [mkT ch ch (nlen pre + 1)]) false] ++ [mkS [] false]) in H.
     rewrite app_assoc in H.
     replace (nlen pre + 1) with (nlen (pre ++ [mkS (cur ++ [mkT ch ch (nlen pre + 1)]) false])) in H at 2
       by (rewrite nlen_app; cbn; lia).
-    apply IH in H as (es & P & ->); [|rewrite nlen_app; cbn [nlen]; lia].
+    apply IH in H as (es & P & ->).
     exists (ERanges [(ch, ch)] :: es). split; [constructor; assumption|].
     rewrite <- app_assoc, nlen_app. cbn [app chain_from map mk_trans fst snd nlen].
     replace (nlen pre + N.succ 0) with (nlen pre + 1) by lia. reflexivity.
 Qed.
 
-Theorem compile_chain pat a : N.of_nat (length pat) < 65536 -> compile pat = Ok (Some a) ->
+Theorem compile_chain pat a : compile pat = Ok (Some a) ->
   exists es, parses pat es /\ a = chain_from 0 [] es.
 Proof.
-  intros Hlen H. unfold compile in H. rewrite add_state_spec in H. cbn [app nlen] in H.
-  rewrite to_state_id_small in H by lia.
-  apply (compile_loop_chain _ pat [] [] a) in H; [exact H|cbn [nlen]; lia].
+  intros H. unfold compile in H. rewrite add_state_spec in H. cbn [app nlen] in H.
+  rewrite to_state_id_id in H.
+  apply (compile_loop_chain _ pat [] [] a) in H. exact H.
 Qed.
